@@ -303,6 +303,7 @@ type subSpan struct {
 	invIdx     int // Subscribe invoked
 	unsubInv   int // Unsubscribe invoked (-1)
 	unsubRet   int // Unsubscribe returned nil (-1)
+	gaps       [][2]int // Unsubscribe calls that failed: [invoked, returned]
 }
 
 func oracleC27(v *View, vd *Verdict) {
@@ -335,6 +336,12 @@ func oracleC27(v *View, vd *Verdict) {
 				f := unq(a.desc)
 				for _, o := range spans {
 					if o.filter == f && o.unsubInv < 0 {
+						if a.returned && a.err != "nil" {
+							// Unsubscribe failed: the subscription is what it was; only the time of the call
+							// itself is uncertain
+							o.gaps = append(o.gaps, [2]int{a.invIdx, a.retIdx})
+							continue
+						}
 						o.unsubInv = a.invIdx
 						if a.returned && a.err == "nil" {
 							o.unsubRet = a.retIdx
@@ -381,7 +388,17 @@ func oracleC27(v *View, vd *Verdict) {
 				}
 				switch {
 				case sp.fromIdx >= 0 && sp.fromIdx < e.Idx && (sp.unsubInv < 0 || sp.unsubInv > e.Idx):
-					definite = true
+					inGap := false
+					for _, gp := range sp.gaps {
+						if e.Idx >= gp[0] && e.Idx <= gp[1] {
+							inGap = true
+						}
+					}
+					if inGap {
+						maybe = true
+					} else {
+						definite = true
+					}
 				case sp.invIdx < e.Idx && (sp.unsubRet < 0 || sp.unsubRet > e.Idx):
 					maybe = true
 				}
@@ -511,6 +528,7 @@ func genC27(g *Gen, idx int) *Plan {
 	var filters []string
 	n := int(g.Range(2, 9))
 	mid := uint16(500)
+	failUnsub, failed := g.Bool(0.2), false
 	for i := 0; i < n; i++ {
 		gap := g.Range(150, 700)
 		t += gap
@@ -521,6 +539,12 @@ func genC27(g *Gen, idx int) *Plan {
 			ops = append(ops, ClientOp{GapMs: gap, Op: "subscribe", Topic: f, QoS: uint8(g.Intn(3))})
 		case g.Bool(0.25):
 			ops = append(ops, ClientOp{GapMs: gap, Op: "unsubscribe", Topic: filters[g.Intn(len(filters))]})
+			if failUnsub && !failed {
+				// the gateway ignores this UNSUBSCRIBE and all its retransmissions: Unsubscribe fails, the
+				// subscription stays what it was
+				failed = true
+				t += int64(cp.RetryCount+1)*cp.RetryDelayMs + 100
+			}
 		default:
 			ops = append(ops, ClientOp{GapMs: gap, Op: "ping"})
 		}
@@ -549,6 +573,10 @@ func genC27(g *Gen, idx int) *Plan {
 	ops = append(ops, ClientOp{GapMs: 400, Op: "disconnect"})
 	cp.Ops = ops
 	p.SGW.Rules = []SGWRule{{On: "PUBREC", Act: "ignore"}}
+	if failed {
+		p.Family = "C27-dispatch-failed-unsubscribe"
+		p.SGW.Rules = append(p.SGW.Rules, SGWRule{On: "UNSUBSCRIBE", Count: int(cp.RetryCount) + 1, Act: "ignore"})
+	}
 	p.SGW.FirstTopicID = 300
 	p.Cfg.SN.MaxLatUs = 4000
 	p.Cfg.HorizonMs = t + 3000
@@ -1068,7 +1096,7 @@ func init() {
 		Rule:   "real client library against the scripted gateway; per packet class (PUBLISH, PUBREL, SUBSCRIBE from the client; PUBACK, PUBREC, PUBCOMP, SUBACK to it) a planned rule drops the first j (1..RetryCount+1, i.e. within and beyond the budget), duplicates or delays occurrences; gateway-initiated QoS 2 with repeated PUBREL after completion; in 12 % of the runs the gateway never acknowledges and sends DISCONNECT while the call waits (the call must not report success); non-trivial = a retransmission, a PUBREL received or an acknowledged/unacknowledged Publish judged",
 		Gen:    genC17, Oracle: oracleC17, Quick: 3000, Thorough: 240000})
 	Register(&Check{ID: "C27", Level: "exploration",
-		Rule:   "filters and topic names over {a,b,'',+,#} up to 3 levels (empty levels, trailing '/', '#' at parent level), subscribe/unsubscribe histories of 2-8 calls, the scripted gateway delivers PUBLISHes (QoS 0/1 on receipt, QoS 2 on PUBREL) between the calls; judged with refmqtt.Match; deliveries that race an in-flight Subscribe/Unsubscribe are don't-care; non-trivial = at least one delivery judged",
+		Rule:   "filters and topic names over {a,b,'',+,#} up to 3 levels (empty levels, trailing '/', '#' at parent level), subscribe/unsubscribe histories of 2-8 calls, the scripted gateway delivers PUBLISHes (QoS 0/1 on receipt, QoS 2 on PUBREL) between the calls; judged with refmqtt.Match; deliveries that race an in-flight Subscribe/Unsubscribe are don't-care; in a fifth of the runs one Unsubscribe fails (the gateway ignores it and its retransmissions) and the subscription must stay what it was; non-trivial = at least one delivery judged",
 		Gen:    genC27, Oracle: oracleC27, Quick: 2400, Thorough: 240000})
 	Register(&Check{ID: "C28", Level: "fault_enumeration",
 		Rule:   "for each of 10 API calls (register, subscribe, unsubscribe, publish QoS 0/1/2, ping, sleep, disconnect, close) x 11 behaviours of the gateway and the network (answering, silent for the call's packet class, silent for a later step, silent forever from an instant, unsolicited packets of random types, DISCONNECT from the gateway, the previous acknowledgement repeated for every retransmittable step / every acknowledgement twice / CONNACK again and again, DISCONNECT repeated for minutes incl. while the client sleeps, an API call in a wrong state (Sleep before Connect) followed by a DISCONNECT from the gateway, a REGISTER the client must refuse followed by more work, the client's own writes failing with an error), KeepAlive on/off; bound per call from ConnectTimeout/RetryDelay/RetryCount/sleep duration + 50 ms; goroutine census of client frames after Close/DISCONNECT; non-trivial = every run",
